@@ -62,9 +62,13 @@ def r1_weights(ctx):
 
         def concat_of(t, src):
             """True if t == np.concatenate([x.ravel() for x in src]) in order"""
-            if not (isinstance(t, tuple) and t[0] == "call" and callee(t) == "numpy.concatenate" and t[2]):
+            if not (isinstance(t, tuple) and t[0] == "call" and callee(t) in ("numpy.concatenate", "numpy.hstack") and t[2]):
                 return None
             c = t[2][0]
+            if c == src:
+                # the tuple is stacked as it is: right for the weights (check_fit_input returns them raveled, C02.R4), wrong for the data,
+                # which keep the caller's shape - 2-D components are then joined along axis 1 (rows interleaved) or not flattened at all
+                return True if src == Q.sub(cfi, 2) else False
             if c[0] == "comp":
                 from .c18 import order_args
                 if order_args(c[2]):
@@ -86,7 +90,8 @@ def r1_weights(ctx):
             return None
         okd = concat_of(d, Q.sub(cfi, 1))
         ctx.check("R3", "%s|data-stacked-east-first|%s" % (qn, tag), okd, "data = concatenate of the raveled validated components, east first (the order of the Jacobian's row blocks)",
-                  bad="the data components are stacked in a different order than the Jacobian's row blocks", fn=qn)
+                  bad=("the data components are stacked without being flattened (%s): 2-D components are joined row by row instead of east block first, north block second" % show(d)[:50])
+                  if isinstance(d, tuple) and d[0] == "call" and d[2] and d[2][0] == Q.sub(cfi, 1) else "the data components are stacked in a different order than the Jacobian's row blocks", fn=qn)
         if hasw:
             okw = concat_of(w, Q.sub(cfi, 2))
             ctx.check("R1", "%s|weights-reach-the-solver|%s" % (qn, tag), okw, "the solver's weights are the concatenated validated weight components",
